@@ -282,17 +282,18 @@ open RbOps NetOps
 /-- `mk_net_drms(Mcb, Kcb, bset, bsubset=sub, uset=u, ref=ref, …)`.  `n` = matrix size; `u` = the x, y, z
 columns of the b-set uset (6 rows per grid; in `bset` order, or - with `reorder` - in ascending matrix
 position); `isCyl`/`isSph` per grid of `u`; `sub` = `bsubset` (positions, `range nb` for None);
-`solve nc A B` = `linalg.solve` for a 6x6 `A` and a 6 x `nc` right-hand side `B`. -/
-def mkNetDrms (n : Nat) (M0 K0 : NMat α) (bset0 sub0 : List Nat) (u0 : NMat α) (isCyl0 isSph0 : Nat → Bool)
-    (ref0 : V3 α) (o : NetOpts α)
+`solve nc A B` = `linalg.solve` for a 6x6 `A` and a 6 x `nc` right-hand side `B`; `memo nr nc A` must agree with `A` on
+the `nr x nc` block (the identity for the theorems, a tabulation in the driver). -/
+def mkNetDrmsWith (memo : Memo α) (n : Nat) (M0 K0 : NMat α) (bset0 sub0 : List Nat) (u0 : NMat α)
+    (isCyl0 isSph0 : Nat → Bool) (ref0 : V3 α) (o : NetOpts α)
     (solve : (nc : Nat) → NMat α → NMat α → NMat α) : NetOut α :=
   let nb := bset0.length
   -- reorder=True: b-set first, uset rows by rank, bsubset as a permuted mask
   let pvl := pvList bset0 n false
   let rk := usetRank bset0
-  let M1 : NMat α := if o.reorder then reorder M0 (fun i => pvl.getD i 0) else M0
-  let K1 : NMat α := if o.reorder then reorder K0 (fun i => pvl.getD i 0) else K0
-  let u1 : NMat α := if o.reorder then (fun i j => u0 (rk.getD i 0) j) else u0
+  let M1 : NMat α := if o.reorder then (memo n n (reorder M0 (fun i => pvl.getD i 0))).get else M0
+  let K1 : NMat α := if o.reorder then (memo n n (reorder K0 (fun i => pvl.getD i 0))).get else K0
+  let u1 : NMat α := if o.reorder then (memo nb 3 (fun i j => u0 (rk.getD i 0) j)).get else u0
   let gk (g : Nat) : Nat := if o.reorder then rk.getD (6 * g) 0 / 6 else g
   let isCyl1 : Nat → Bool := fun g => isCyl0 (gk g)
   let isSph1 : Nat → Bool := fun g => isSph0 (gk g)
@@ -306,61 +307,61 @@ def mkNetDrms (n : Nat) (M0 K0 : NMat α) (bset0 sub0 : List Nat) (u0 : NMat α)
   let sphIf : Nat → Bool := fun g => isSph1 (sub.getD (6 * g) 0 / 6)
   let T := tsc2lv o.sccoord
   -- s/c units
-  let rb := rbgeomUset (rowsOf sub u1) cylIf sphIf ref0
-  let ifltmaSc0 := netDrm nbi rb M1 bi
-  let ifltmdSc0 := netDrmD nbi rb K1 bi bs
-  let rbAll := rbgeomUset u1 isCyl1 isSph1 ref0
-  let kbb : NMat α := fun i j => K1 (bs i) (bs j)
+  let rb := (memo nbi 6 (rbgeomUset (rowsOf sub u1) cylIf sphIf ref0)).get
+  let ifltmaSc0 := (memo 6 n (netDrm nbi rb M1 bi)).get
+  let ifltmdSc0 := (memo 6 nb (netDrmD nbi rb K1 bi bs)).get
+  let rbAll := (memo nb 6 (rbgeomUset u1 isCyl1 isSph1 ref0)).get
+  let kbb : NMat α := (memo nb nb (fun i j => K1 (bs i) (bs j))).get
   let grounding := groundWarn nb kbb rbAll
   -- l/v units
   let lc : α := match o.conv with | some c => c.1 | none => 1
   let mc : α := match o.conv with | some c => c.2 | none => 1
   let isConv := o.conv.isSome
-  let ifltmaSc : NMat α := if isConv then cbconvert ifltmaSc0 bset lc mc true else ifltmaSc0
-  let ifltmdSc : NMat α := if isConv then cbconvert ifltmdSc0 (List.range nb) lc mc true else ifltmdSc0
-  let M2 : NMat α := if isConv then cbconvert M1 bset lc mc false else M1
-  let K2 : NMat α := if isConv then cbconvert K1 bset lc mc false else K1
-  let u2 : NMat α := if isConv then usetConvert u1 lc else u1
+  let ifltmaSc : NMat α := if isConv then (memo 6 n (cbconvert ifltmaSc0 bset lc mc true)).get else ifltmaSc0
+  let ifltmdSc : NMat α := if isConv then (memo 6 nb (cbconvert ifltmdSc0 (List.range nb) lc mc true)).get else ifltmdSc0
+  let M2 : NMat α := if isConv then (memo n n (cbconvert M1 bset lc mc false)).get else M1
+  let K2 : NMat α := if isConv then (memo n n (cbconvert K1 bset lc mc false)).get else K1
+  let u2 : NMat α := if isConv then (memo nb 3 (usetConvert u1 lc)).get else u1
   let ref : V3 α := if isConv then ⟨ref0.x * lc, ref0.y * lc, ref0.z * lc⟩ else ref0
-  let rb2 : NMat α := if isConv then rbgeomUset (rowsOf sub u2) cylIf sphIf ref else rb
-  let rbAll2 : NMat α := if isConv then rbgeomUset u2 isCyl1 isSph1 ref else rbAll
-  let ifltmaLv0 : NMat α := if isConv then netDrm nbi rb2 M2 bi else ifltmaSc
-  let ifltmdLv0 : NMat α := if isConv then netDrmD nbi rb2 K2 bi bs else ifltmdSc
+  let rb2 : NMat α := if isConv then (memo nbi 6 (rbgeomUset (rowsOf sub u2) cylIf sphIf ref)).get else rb
+  let rbAll2 : NMat α := if isConv then (memo nb 6 (rbgeomUset u2 isCyl1 isSph1 ref)).get else rbAll
+  let ifltmaLv0 : NMat α := if isConv then (memo 6 n (netDrm nbi rb2 M2 bi)).get else ifltmaSc
+  let ifltmdLv0 : NMat α := if isConv then (memo 6 nb (netDrmD nbi rb2 K2 bi bs)).get else ifltmdSc
   -- RBE3 for the net interface acceleration: dependent grid at `ref` (basic), independent DOF `code`
   let code := indepCode nbi o.rbe3Indep
   let irows := indepRows nbi code
   let cols := ifatmCols bIf code
   let m := irows.length
-  let rbI : NMat α := fun k j => rb2 (irows.getD k 0) j
+  let rbI : NMat α := (memo m 6 (fun k j => rb2 (irows.getD k 0) j)).get
   let w := rbe3Weights irows (rbe3Lc (nbi / 6) (rowsOf sub u2) ref)
-  let A := rbe3Normal m rbI w
-  let B := rbe3Rhs rbI w
-  let X := solve m A B
-  let ifatm0 := scatterCols cols X
+  let A := (memo 6 6 (rbe3Normal m rbI w)).get
+  let B := (memo 6 m (rbe3Rhs rbI w)).get
+  let X := (memo 6 m (solve m A B)).get
+  let ifatm0 := (memo 6 n (scatterCols cols X)).get
   -- cg and mass at the cg (l/v units, s/c coordinates)
-  let mbb : NMat α := fun i j => M2 (bs i) (bs j)
-  let Mif := mass6 nb rbAll2 mbb
+  let mbb : NMat α := (memo nb nb (fun i j => M2 (bs i) (bs j))).get
+  let Mif := (memo 6 6 (mass6 nb rbAll2 mbb)).get
   let cgm := cgmass Mif
-  let Mcg := cgm.1
+  let Mcg := (memo 6 6 cgm.1).get
   let cgSc := cgm.2
   let cgLv := mul3v T cgSc
   let replaceLv := !(allclose1 (maxAbs3 cgSc) (maxAbs3 cgLv))
   -- F46: the cg offset from `ref` is used as a BASIC location
-  let rbcg := rbgeomUset (rowsOf sub u2) cylIf sphIf cgSc
-  let cgB := cgatmRhs nbi rbcg M2 bi
-  let cgX := solve n Mcg cgB
-  let ifatmSc1 := divRows3 ifatm0 o.g
-  let cgatmSc1 := divRows3 cgX o.g
+  let rbcg := (memo nbi 6 (rbgeomUset (rowsOf sub u2) cylIf sphIf cgSc)).get
+  let cgB := (memo 6 n (cgatmRhs nbi rbcg M2 bi)).get
+  let cgX := (memo 6 n (solve n Mcg cgB)).get
+  let ifatmSc1 := (memo 6 n (divRows3 ifatm0 o.g)).get
+  let cgatmSc1 := (memo 6 n (divRows3 cgX o.g)).get
   let weightLv := Mcg 0 0 * o.g
   let heightLv := maxAbs3 cgSc
   let weightSc := if isConv then weightLv / (mc * lc) else weightLv
   let heightSc := if isConv then heightLv / lc else heightLv
   let axSc := argmaxAbs3 cgSc
   let axLv := argmaxAbs3 cgLv
-  let ifltmaLv := mul6 T ifltmaLv0
-  let ifltmdLv := mul6 T ifltmdLv0
-  let ifatmLv1 := mul6 T ifatmSc1
-  let cgatmLv1 := mul6 T cgatmSc1
+  let ifltmaLv := (memo 6 n (mul6 T ifltmaLv0)).get
+  let ifltmdLv := (memo 6 nb (mul6 T ifltmdLv0)).get
+  let ifatmLv1 := (memo 6 n (mul6 T ifatmSc1)).get
+  let cgatmLv1 := (memo 6 n (mul6 T cgatmSc1)).get
   let cglfa := cglf14 (cglf5 (some cgatmSc1) ifltmaSc cgSc axSc weightSc heightSc)
     (cglf5 (some cgatmLv1) ifltmaLv cgLv axLv weightLv heightLv) replaceLv
   let cglfd := cglf14 (cglf5 none ifltmdSc cgSc axSc weightSc heightSc)
@@ -375,6 +376,12 @@ def mkNetDrms (n : Nat) (M0 K0 : NMat α) (bset0 sub0 : List Nat) (u0 : NMat α)
     weightSc, heightSc, weightLv, heightLv, cgSc, cgLv, axSc, axLv, replaceLv, grounding,
     rb := rb2, rbAll := rbAll2, rbe3A := A, rbe3B := B, rbe3X := X, mcg := Mcg, cgB, cgX,
     nxyz := m, bset }
+
+/-- the routine itself (no tabulation of intermediate matrices: `memo` only matters for the run time of the `Float`
+driver, which passes a tabulating one) -/
+def mkNetDrms (n : Nat) (M0 K0 : NMat α) (bset0 sub0 : List Nat) (u0 : NMat α) (isCyl0 isSph0 : Nat → Bool)
+    (ref0 : V3 α) (o : NetOpts α) (solve : (nc : Nat) → NMat α → NMat α → NMat α) : NetOut α :=
+  mkNetDrmsWith Memo.id n M0 K0 bset0 sub0 u0 isCyl0 isSph0 ref0 o solve
 
 end routine
 
